@@ -2,6 +2,7 @@ import EosProofs.Lemmas.MicroLegal
 import EosProofs.Lemmas.MicroAssembly
 import EosProofs.Lemmas.MicroExec
 import EosProofs.Lemmas.MicroTeardown
+import EosProofs.Lemmas.MicroBuffTable
 /-! # C01, layer 2 — the message handlers of the calculation service keep the attribute cache coherent
 
 `EosProofs/Props/C01.lean` (layer 1) shows that *any* history of reads and mutations whose removal sets are
@@ -28,8 +29,10 @@ Hypotheses and where they are used:
   recorded targets at that moment), and `projMods` ignores payload that is not an instance of one of the
   universe's buff templates (`bspecOK`), so ranks grow along `rdeps` in every dynamic state.  Everything up to
   `micro_incremental_eq_scratch` holds for universes *with* warfare-buff effects (`micro_rebuff_legal` and the
-  example after it run one); only the join to the from-scratch table (`world_read_eq_table`) assumes there
-  are none;
+  example after it run one).  The join to the from-scratch table is `world_read_eq_table_buff`: the final
+  state is `BuffSettled` (the derived state plus, for every running boost, the payload and the recorded targets
+  the specification computes from the table; `Lemmas/MicroBuffTable.lean`), and no fleet-boost effect is also
+  projectable (`hnp`); `world_read_eq_table` is its instance for universes without buff effects;
 * acyclicity of `deps` (`hacyc`) is *not* used here; it is a field of the graphs `W c`. -/
 namespace Eos.C01World
 open Eos.World Eos.Micro Eos.Micro.L Eos.DepCache Eos.Machine
@@ -135,7 +138,75 @@ example : rankWF tinyU = true ∧ UniqueAttrs tinyU ∧ ResistWF tinyU ∧ Uniqu
 
 /-! ## The incrementally maintained cache agrees with the from-scratch table -/
 
-/-- **Headline: after any message history that ends in a settled state, every read returns the entry of the
+/-- **Headline, universes with fleet boosts: after any message history that ends in a settled state, every
+read returns the entry of the specification's table** `World.evalAll` — the table the driver computes from
+scratch and the differential run compares the real code with.  `worldGraph` is the graph family of the
+message-level model (override nodes — skill levels — are not dependencies: the real code never caches them).
+
+Hypotheses, in terms of the property's quantifier:
+* `hwf : rankWF u` — the attribute dependencies of the universe are acyclic (listed in rank order);
+* `hun : UniqueAttrs u` — attribute ids are unique;
+* `hR : ResistWF u` — resistance attributes only on effects with projected (`domain = 4`) modifiers;
+* `hnp` — a fleet-boost effect is not at the same time a projectable (category 2) effect; *no* "no buff
+  effects" hypothesis;
+* `hU, hC, hT` — the initial configuration has unique item ids, charges sit in modules of their own fit,
+  recorded projection targets are ships / drones / fighters (each is kept by every step);
+* `ok : WRunOKE …` — every event is taken under its side conditions: reads fill dependency-closed sets;
+  messages satisfy `StepOK` (K1: a loaded / unloaded item is not a recorded projection target; effects are
+  started before they are applied and unapplied before they are stopped; warfare-buff modifiers are replaced
+  while the projector has no recorded targets; an item is loaded with nothing of it cached and none of its
+  effects running) and *non-zero divisors*: no attribute calculation of the state before and after a load /
+  unload / start / stop / apply / unapply ends in a division by zero (`ErrorFree`, which discharges
+  `StaticAround`); level changes satisfy `RelevelOK`;
+* `hset : BuffSettled …` — the history ends in a settled state: exactly the effects the specification selects
+  run, ordinary projectable effects are applied to the items' current targets (`derivedDyn` on these), and for
+  every running fleet boost the registered warfare-buff modifiers are (a permutation of) the specification's
+  `buffModifiers` computed from the table and — unless the projector has no projected modifier at all — the
+  recorded targets are (a permutation of) the ships the specification boosts (`BuffPayloadOK`; the
+  correspondence check compares exactly this with the real service after every public call, driver command
+  `QB`);
+* `hnz` — non-zero divisors for the final configuration: the table has no `divZero` entry.
+Conclusion: for every configured item and attribute with metadata, what a read observes (the cached value
+if there is one, a fresh calculation otherwise) is `World.read` of the table. -/
+theorem world_read_eq_table_buff (hwf : rankWF u = true) (hun : UniqueAttrs u) (hR : ResistWF u)
+    (hnp : ∀ e ∈ u.effects, e.isBuff = true → e.category ≠ 2)
+    {cfg : Config} {d : Dyn} (hU : UniqueIds cfg) (hC : ChargeWF cfg)
+    (hT : TgtKinds cfg d) (steps : List WStep)
+    (ok : WRunOKE u immune limited pen (worldGraph u immune limited pen hwf) ⟨cfg, d, fun _ => none⟩ steps)
+    (sF : MState) (hF : wrun u (worldGraph u immune limited pen hwf) ⟨cfg, d, fun _ => none⟩ steps = sF)
+    (hset : BuffSettled u sF.cfg immune limited pen sF.dyn)
+    (hnz : ∀ entry ∈ evalAll u sF.cfg immune limited pen, entry.2 ≠ .divZero)
+    {x : Item} (hx : x ∈ sF.cfg.items) {am : AttrMeta} (ham : am ∈ u.attrs) :
+    observe (worldGraph u immune limited pen hwf) (toState sF) (x.id, am.id) =
+      valToOption (World.read (evalAll u sF.cfg immune limited pen) x am.id) := by
+  subst hF
+  have T := worldGraph_ties (immune := immune) (limited := limited) (pen := pen) hwf
+  have okW := wrunOK_of_errorFree T steps _ ok
+  rw [micro_read_eq_spec T hwf hun hR hU hC hT steps okW]
+  exact settled_spec_eq_table_buff hwf hun (micro_inv_run T hwf hun hR hU hC hT steps okW).uniq hnp hnz hset hx ham
+
+/-- The same with "non-zero divisors" of the final state stated like that of the states passed through
+(`ErrorFree` of the settled state); the table then has no `divZero` at the entries read. -/
+theorem world_read_eq_table_buff_of_errorFree (hwf : rankWF u = true) (hun : UniqueAttrs u) (hR : ResistWF u)
+    (hnp : ∀ e ∈ u.effects, e.isBuff = true → e.category ≠ 2)
+    {cfg : Config} {d : Dyn} (hU : UniqueIds cfg) (hC : ChargeWF cfg)
+    (hT : TgtKinds cfg d) (steps : List WStep)
+    (ok : WRunOKE u immune limited pen (worldGraph u immune limited pen hwf) ⟨cfg, d, fun _ => none⟩ steps)
+    (sF : MState) (hF : wrun u (worldGraph u immune limited pen hwf) ⟨cfg, d, fun _ => none⟩ steps = sF)
+    (hset : BuffSettled u sF.cfg immune limited pen sF.dyn)
+    (hef : ErrorFree u immune limited pen (worldGraph u immune limited pen hwf) sF.cfg sF.dyn)
+    {x : Item} (hx : x ∈ sF.cfg.items) {am : AttrMeta} (ham : am ∈ u.attrs) :
+    observe (worldGraph u immune limited pen hwf) (toState sF) (x.id, am.id) =
+      valToOption (World.read (evalAll u sF.cfg immune limited pen) x am.id) ∧
+    World.read (evalAll u sF.cfg immune limited pen) x am.id ≠ .divZero := by
+  subst hF
+  have T := worldGraph_ties (immune := immune) (limited := limited) (pen := pen) hwf
+  have okW := wrunOK_of_errorFree T steps _ ok
+  rw [micro_read_eq_spec T hwf hun hR hU hC hT steps okW]
+  exact settled_spec_eq_table_buff_of_errorFree hwf hun (micro_inv_run T hwf hun hR hU hC hT steps okW).uniq hnp
+    hset hef hx ham
+
+/-- **Headline, universes without buff effects (instance of `world_read_eq_table_buff`): after any message history that ends in a settled state, every read returns the entry of the
 specification's table** `World.evalAll` — the table the driver computes from scratch and the differential
 run compares the real code with.  `worldGraph` is the graph family of the message-level model (override
 nodes — skill levels — are not dependencies: the real code never caches them).
@@ -144,7 +215,7 @@ Hypotheses, in terms of the property's quantifier:
 * `hwf : rankWF u` — the attribute dependencies of the universe are acyclic (listed in rank order);
 * `hun : UniqueAttrs u` — attribute ids are unique;
 * `hR : ResistWF u` — resistance attributes only on effects with projected (`domain = 4`) modifiers;
-* `hb` — no warfare-buff effects (fleet boosts are outside the message-level layer);
+* `hb` — no warfare-buff effects (then `derivedDyn` is `BuffSettled`: `buffSettled_derived`);
 * `hU, hC, hT` — the initial configuration has unique item ids, charges sit in modules of their own fit,
   recorded projection targets are ships / drones / fighters (each is kept by every step);
 * `ok : WRunOKE …` — every event is taken under its side conditions: reads fill dependency-closed sets;
@@ -167,12 +238,9 @@ theorem world_read_eq_table (hwf : rankWF u = true) (hun : UniqueAttrs u) (hR : 
     (hnz : ∀ entry ∈ evalAll u sF.cfg immune limited pen, entry.2 ≠ .divZero)
     {x : Item} (hx : x ∈ sF.cfg.items) {am : AttrMeta} (ham : am ∈ u.attrs) :
     observe (worldGraph u immune limited pen hwf) (toState sF) (x.id, am.id) =
-      valToOption (World.read (evalAll u sF.cfg immune limited pen) x am.id) := by
-  subst hF
-  have T := worldGraph_ties (immune := immune) (limited := limited) (pen := pen) hwf
-  have okW := wrunOK_of_errorFree T steps _ ok
-  rw [micro_read_eq_spec T hwf hun hR hU hC hT steps okW, hset]
-  exact settled_spec_eq_table hb hwf hun (micro_inv_run T hwf hun hR hU hC hT steps okW).uniq hnz hx ham
+      valToOption (World.read (evalAll u sF.cfg immune limited pen) x am.id) :=
+  world_read_eq_table_buff hwf hun hR (fun e he h => by rw [hb e he] at h; cases h) hU hC hT steps ok sF hF
+    (hset ▸ buffSettled_derived hb) hnz hx ham
 
 /-- The same with "non-zero divisors" of the final state stated like that of the states passed through
 (`ErrorFree` of the settled state); the table then has no `divZero` at the entries read. -/
@@ -186,13 +254,9 @@ theorem world_read_eq_table_of_errorFree (hwf : rankWF u = true) (hun : UniqueAt
     {x : Item} (hx : x ∈ sF.cfg.items) {am : AttrMeta} (ham : am ∈ u.attrs) :
     observe (worldGraph u immune limited pen hwf) (toState sF) (x.id, am.id) =
       valToOption (World.read (evalAll u sF.cfg immune limited pen) x am.id) ∧
-    World.read (evalAll u sF.cfg immune limited pen) x am.id ≠ .divZero := by
-  subst hF
-  have T := worldGraph_ties (immune := immune) (limited := limited) (pen := pen) hwf
-  have okW := wrunOK_of_errorFree T steps _ ok
-  rw [micro_read_eq_spec T hwf hun hR hU hC hT steps okW]
-  rw [hset] at hef ⊢
-  exact settled_spec_eq_table_of_errorFree hb hwf hun (micro_inv_run T hwf hun hR hU hC hT steps okW).uniq hef hx ham
+    World.read (evalAll u sF.cfg immune limited pen) x am.id ≠ .divZero :=
+  world_read_eq_table_buff_of_errorFree hwf hun hR (fun e he h => by rw [hb e he] at h; cases h) hU hC hT steps ok
+    sF hF (hset ▸ buffSettled_derived hb) hef hx ham
 
 /-- Attributes without metadata: a read observes no value in any reachable state, and the table's read is
 absent (except that `World.read` answers a skill's level from the item even when attribute 280 has no
@@ -512,5 +576,126 @@ example : (∃ e ∈ buffU.effects, e.isBuff = true) ∧
   · have h100 : (wrun buffU buffW buffS0 (buffHist.take 2)).cache (1, 37) = some 100 := by decide +kernel
     have := (inv5.good.coh (1, 37) 100 (h.trans h100)).symm.trans hspec
     exact absurd this (by decide +kernel)
+
+/-! ### Non-vacuity of `world_read_eq_table_buff`: a legal history that ends in a `BuffSettled` state
+
+The fleet of `Lemmas/MicroBuffTable.lean` (`fleetU`, `fleetCfg`: fit 0 with ship 1 and a boosting module 2,
+fit 1 with ship 3, same fleet; the module's buff id attribute selects the template "attribute 37 of the boosted
+ship × buff value 3/2").  History `fleetHist` from the state "everything loaded, nothing running, nothing
+cached": the boost effect starts; the service registers the buff (un-apply from no targets, `buffset` with the
+modifier built from the template, apply to both ships); a read of ship 3's attribute 37.  The end state
+satisfies `BuffSettled` — the hypothesis is met by a state a legal history reaches —, and the read observes
+the table's entry, 100 · 3/2 = 150. -/
+
+def fleetBM : Modifier := ⟨1, 4, none, 37, 6, 1, some 10, 2469⟩
+def fleetD0 : Dyn :=
+  { loaded := (derivedDyn fleetU fleetCfg).loaded, on := fun _ _ => false, tgts := fun _ _ => [] }
+def fleetS0 : MState := ⟨fleetCfg, fleetD0, fun _ => none⟩
+abbrev fleetW : Config × Dyn → Graph Node Rat := worldGraph fleetU specImmune specLimited fleetPen (by decide)
+def fleetHist : List WStep :=
+  [.micro (.start 2 [2000]), .micro (.unapply 2 2000 []), .micro (.buffset 2 2000 [fleetBM]),
+   .micro (.apply 2 2000 [1, 3]), .read fun n => n == (3, 37) || n == (2, 2469)]
+
+theorem fleet_wf : rankWF fleetU = true ∧ UniqueAttrs fleetU ∧ ResistWF fleetU ∧ UniqueIds fleetCfg ∧
+    ChargeWF fleetCfg ∧ TgtKinds fleetCfg fleetD0 := by
+  refine ⟨by decide, by unfold UniqueAttrs; decide, ?_, by unfold UniqueIds; decide, ?_, ?_⟩
+  · intro e he r hr
+    simp only [fleetU, List.mem_singleton] at he
+    subst he; cases hr
+  · intro x hx hk
+    simp only [fleetCfg, fleetShip1, fleetMod, fleetShip3, List.mem_cons, List.not_mem_nil, or_false] at hx
+    rcases hx with rfl | rfl | rfl <;> cases hk
+  · intro a e t ht
+    simp [targetsOf, fleetD0] at ht
+
+theorem fleet_readLegal (s : MState) (hc : s.cfg = fleetCfg)
+    (hd : s.dyn = (wrun fleetU fleetW fleetS0 (fleetHist.take 4)).dyn) :
+    Legal fleetW (toState s) (.read fun n => n == (3, 37) || n == (2, 2469)) := by
+  intro n hn m hm _
+  have : (toState s).cfg = (fleetCfg, (wrun fleetU fleetW fleetS0 (fleetHist.take 4)).dyn) := by
+    show (s.cfg, s.dyn) = _; rw [hc, hd]
+  rw [this] at hm
+  have hdeps : ∀ n, (n == ((3 : Nat), (37 : Int)) || n == (2, 2469)) = true →
+      ∀ m ∈ (fleetW (fleetCfg, (wrun fleetU fleetW fleetS0 (fleetHist.take 4)).dyn)).deps n, m = (2, 2469) := by
+    intro n hn
+    simp only [Bool.or_eq_true, beq_iff_eq] at hn
+    rcases hn with rfl | rfl <;> decide +kernel
+  left
+  rw [hdeps n hn m hm]; rfl
+
+/-- Every event of the history is taken under its side conditions. -/
+theorem fleet_runOK : WRunOKE fleetU specImmune specLimited fleetPen fleetW fleetS0 fleetHist := by
+  refine ⟨⟨?_, fun _ => ⟨?_, ?_⟩⟩, ⟨trivial, fun _ => ⟨?_, ?_⟩⟩, ⟨?_, fun h => by cases h⟩,
+    ⟨?_, fun _ => ⟨?_, ?_⟩⟩, ?_, trivial⟩
+  · intro e _; rfl
+  all_goals first
+    | exact fleet_readLegal _ rfl rfl
+    | (unfold ErrorFree; decide +kernel)
+    | rfl
+    | (intro j hj t ht
+       simp only [List.mem_cons, List.not_mem_nil, or_false] at hj
+       rcases hj with rfl | rfl <;> (cases ht; rfl))
+
+theorem fleet_item1 : item? fleetCfg 1 = some fleetShip1 := rfl
+theorem fleet_item2 : item? fleetCfg 2 = some fleetMod := rfl
+theorem fleet_item3 : item? fleetCfg 3 = some fleetShip3 := rfl
+theorem fleet_itemN {i : Nat} (h1 : i ≠ 1) (h2 : i ≠ 2) (h3 : i ≠ 3) : item? fleetCfg i = none := by
+  simp [item?, fleetCfg, fleetShip1, fleetMod, fleetShip3]; omega
+
+/-- **The end state of the history is `BuffSettled`**: loaded items and running effects as the specification
+derives them, the registered modifier is the specification's `buffModifiers` of the module (from the table),
+the recorded targets are the two ships of the fleet. -/
+theorem fleet_hset : BuffSettled fleetU (wrun fleetU fleetW fleetS0 fleetHist).cfg specImmune specLimited fleetPen
+    (wrun fleetU fleetW fleetS0 fleetHist).dyn := by
+  show BuffSettled fleetU fleetCfg specImmune specLimited fleetPen (wrun fleetU fleetW fleetS0 fleetHist).dyn
+  have r1 : runningEffects fleetU fleetCfg fleetShip1 = [] := by decide +kernel
+  have r2 : runningEffects fleetU fleetCfg fleetMod = [⟨2000, 1, none, none, true, []⟩] := by rfl
+  have r3 : runningEffects fleetU fleetCfg fleetShip3 = [] := by decide +kernel
+  refine BuffSettled.intro rfl ?_ ?_ ?_
+  · show (fun j e => if j = 2 ∧ e ∈ [2000] then true else false) = _
+    funext j e
+    by_cases h1 : j = 1
+    · subst h1
+      have : runningIds fleetU fleetCfg fleetShip1 = [] := by decide +kernel
+      simp [derivedDyn, fleet_item1, this]
+    · by_cases h2 : j = 2
+      · subst h2
+        have : runningIds fleetU fleetCfg fleetMod = [2000] := by decide +kernel
+        simp [derivedDyn, fleet_item2, this]
+      · by_cases h3 : j = 3
+        · subst h3
+          have : runningIds fleetU fleetCfg fleetShip3 = [] := by decide +kernel
+          simp [derivedDyn, fleet_item3, this]
+        · simp [derivedDyn, fleet_itemN h1 h2 h3, h2]
+  · intro a ha e he hbf
+    simp only [fleetCfg, List.mem_cons, List.not_mem_nil, or_false] at ha
+    rcases ha with rfl | rfl | rfl
+    · rw [r1] at he; cases he
+    · rw [r2] at he; simp only [List.mem_cons, List.not_mem_nil, or_false] at he; subst he; cases hbf
+    · rw [r3] at he; cases he
+  · intro a ha e he _
+    simp only [fleetCfg, List.mem_cons, List.not_mem_nil, or_false] at ha
+    rcases ha with rfl | rfl | rfl
+    · rw [r1] at he; cases he
+    · rw [r2] at he; simp only [List.mem_cons, List.not_mem_nil, or_false] at he; subst he
+      refine ⟨⟨[fleetBM], by decide +kernel, List.Perm.of_eq (by decide +kernel)⟩, Or.inr ?_⟩
+      have : boostTargets fleetCfg fleetMod.fit = [fleetShip1, fleetShip3] := by rfl
+      rw [this]; exact List.Perm.of_eq (by decide +kernel)
+    · rw [r3] at he; cases he
+
+/-- `fleetHist` satisfies every hypothesis of `world_read_eq_table_buff` — in a universe with a buff effect —,
+and the read of the boosted ship of the *other* fit observes the table's entry. -/
+example : observe fleetW (toState (wrun fleetU fleetW fleetS0 fleetHist)) (3, 37) =
+    valToOption (World.read (evalAll fleetU fleetCfg specImmune specLimited fleetPen) fleetShip3 37) :=
+  world_read_eq_table_buff (by decide) fleet_wf.2.1 fleet_wf.2.2.1 (by decide) fleet_wf.2.2.2.1
+    fleet_wf.2.2.2.2.1 fleet_wf.2.2.2.2.2 fleetHist fleet_runOK _ rfl fleet_hset (by decide +kernel)
+    (x := fleetShip3) (List.mem_cons_of_mem _ (List.mem_cons_of_mem _ List.mem_cons_self))
+    (am := ⟨37, none, none, true, true⟩) (List.mem_cons_of_mem _ (List.mem_cons_of_mem _ List.mem_cons_self))
+
+example : (∃ e ∈ fleetU.effects, e.isBuff = true) ∧
+    observe fleetW (toState (wrun fleetU fleetW fleetS0 fleetHist)) (3, 37) = some 150 ∧
+    World.read (evalAll fleetU fleetCfg specImmune specLimited fleetPen) fleetShip3 37 = .ok 150 ∧
+    (wrun fleetU fleetW fleetS0 fleetHist).cache (3, 37) = some 150 := by
+  refine ⟨by decide, by decide +kernel, by decide +kernel, by decide +kernel⟩
 
 end Eos.C01World
